@@ -254,6 +254,41 @@ proof fn lemma_same_ij_step<T: DSet>(ds: &T, i: int, j: int, d: int, e: int, e2:
     }
 }
 
+// ---- "exactly one representative per (i,j)-orbit": a set of chambers that is CLOSED under the operations i and j (wherever they are
+// defined) has an orbit function as its indicator, so a chamber inside and a chamber outside are on different orbits
+pub open spec fn ci_at<T: DSet>(ds: &T, i: int, s: Seq<bool>, x: int) -> bool {
+    ds.sop(i, x).is_some() ==> s[ds.sop(i, x).unwrap() as int]
+}
+pub open spec fn closed_ij<T: DSet>(ds: &T, i: int, j: int, s: Seq<bool>) -> bool {
+    forall|x: int| 1 <= x <= ds.ssize() && #[trigger] s[x] ==> ci_at(ds, i, s, x) && ci_at(ds, j, s, x)
+}
+pub open spec fn distinct_orbits<T: DSet>(ds: &T, i: int, j: int, reps: Seq<usize>) -> bool {
+    forall|k: int, l: int| 0 <= k < l < reps.len() ==> !#[trigger] same_ij(ds, i, j, reps[k] as int, reps[l] as int)
+}
+
+proof fn lemma_closed_separates<T: DSet>(ds: &T, i: int, j: int, s: Seq<bool>, a: int, b: int)
+    requires ds.wf(), s.len() == ds.ssize() + 1, closed_ij(ds, i, j, s), 1 <= a <= ds.ssize(), 1 <= b <= ds.ssize(), s[a], !s[b]
+    ensures !same_ij(ds, i, j, a, b)
+{
+    ds.lemma_wf();
+    let f = |x: int| if 1 <= x <= ds.ssize() && s[x] { 1int } else { 0int };
+    assert(orbit_fn(ds, i, j, f)) by {
+        assert forall|x: int| 1 <= x <= ds.ssize() implies
+            ((#[trigger] ds.sop(i, x)).is_some() ==> f(ds.sop(i, x).unwrap() as int) == f(x))
+            && ((#[trigger] ds.sop(j, x)).is_some() ==> f(ds.sop(j, x).unwrap() as int) == f(x)) by {
+            if ds.sop(i, x).is_some() {
+                let y = ds.sop(i, x).unwrap() as int;
+                if s[x] { assert(ci_at(ds, i, s, x)); } else if s[y] { assert(ci_at(ds, i, s, y)); }
+            }
+            if ds.sop(j, x).is_some() {
+                let y = ds.sop(j, x).unwrap() as int;
+                if s[x] { assert(ci_at(ds, j, s, x)); } else if s[y] { assert(ci_at(ds, j, s, y)); }
+            }
+        }
+    }
+    assert(f(a) == 1 && f(b) == 0);
+}
+
 // default method no type overrides; emitted as a free function (R11) because its contract speaks about orbit functions of the
 // abstract D-set, which a method INSIDE the trait declaration may not mention (Verus: cyclic self-reference)
 //@ begin src/dsets.rs :: trait DSet: Sized :: fn orbit_reps_2d | props=C05
@@ -269,6 +304,8 @@ proof fn lemma_same_ij_step<T: DSet>(ds: &T, i: int, j: int, d: int, e: int, e2:
     ensures forall|k: int| 0 <= k < result@.len() ==> 1 <= #[trigger] result@[k] <= this.ssize(),
         // every chamber lies on the (i,j)-orbit of a listed representative
         forall|x: int| 1 <= x <= this.ssize() ==> #[trigger] has_rep(this, i as int, j as int, result@, x),
+        // and no orbit is listed twice: EXACTLY one representative per (i,j)-orbit
+        distinct_orbits(this, i as int, j as int, result@),
     {
         proof { this.lemma_wf(); }
         let mut result: Vec<usize> = vec![];
@@ -279,9 +316,14 @@ proof fn lemma_same_ij_step<T: DSet>(ds: &T, i: int, j: int, d: int, e: int, e2:
                 forall|k: int| 0 <= k < result@.len() ==> 1 <= #[trigger] result@[k] <= this.ssize(),
                 forall|x: int| 1 <= x <= this.ssize() && #[trigger] seen@[x] ==> has_rep(this, i as int, j as int, result@, x),
                 forall|x: int| 1 <= x < d ==> #[trigger] has_rep(this, i as int, j as int, result@, x),
+                // the marked chambers are closed under both operations, all listed representatives are marked, and they lie on different orbits
+                closed_ij(this, i as int, j as int, seen@),
+                forall|k: int| 0 <= k < result@.len() ==> seen@[#[trigger] result@[k] as int],
+                distinct_orbits(this, i as int, j as int, result@),
         {
             if !seen[d] {
                 let ghost r0 = result@;
+                let ghost seen0 = seen@;
                 result.push(d);
                 seen[d] = true;
                 proof {
@@ -294,9 +336,15 @@ proof fn lemma_same_ij_step<T: DSet>(ds: &T, i: int, j: int, d: int, e: int, e2:
                     assert forall|x: int| 1 <= x < d + 1 implies #[trigger] has_rep(this, i as int, j as int, result@, x) by {
                         if x != d { assert(has_rep(this, i as int, j as int, r0, x)); lemma_has_rep_push(this, i as int, j as int, r0, d, x); }
                     }
+                    // d was not marked, every earlier representative is: a closed set separates them
+                    assert forall|k: int, l: int| 0 <= k < l < result@.len() implies !#[trigger] same_ij(this, i as int, j as int, result@[k] as int, result@[l] as int) by {
+                        if l < r0.len() { assert(result@[k] == r0[k] && result@[l] == r0[l]); }
+                        else { assert(result@[k] == r0[k]); assert(seen0[r0[k] as int]); lemma_closed_separates(this, i as int, j as int, seen0, r0[k] as int, d as int); }
+                    }
                 }
 
                 let mut e = d;
+                let ghost mut started = false;
 
                 loop
                     invariant this.wf(), seen@.len() == this.ssize() + 1, 1 <= e <= this.ssize(), 1 <= d <= this.ssize(),
@@ -305,15 +353,53 @@ proof fn lemma_same_ij_step<T: DSet>(ds: &T, i: int, j: int, d: int, e: int, e2:
                         result@.len() > 0, result@[result@.len() - 1] == d,
                         forall|x: int| 1 <= x < d + 1 ==> #[trigger] has_rep(this, i as int, j as int, result@, x),
                         same_ij(this, i as int, j as int, d as int, e as int),
+                        // marks are only added; closure under operation i can be open at the current chamber e only, closure under
+                        // operation j at the start chamber d only (it closes when the walk returns there)
+                        forall|x: int| 0 <= x <= this.ssize() && #[trigger] seen0[x] ==> seen@[x],
+                        seen@[d as int], seen@[e as int],
+                        forall|x: int| 1 <= x <= this.ssize() && #[trigger] seen@[x] && x != e ==> ci_at(this, i as int, seen@, x),
+                        forall|x: int| 1 <= x <= this.ssize() && #[trigger] seen@[x] && x != d ==> ci_at(this, j as int, seen@, x),
+                        started ==> ci_at(this, i as int, seen@, d as int), !started ==> e == d, seen0.len() == seen@.len(),
+                        forall|k: int| 0 <= k < result@.len() ==> seen@[#[trigger] result@[k] as int],
+                        distinct_orbits(this, i as int, j as int, result@),
+                    ensures closed_ij(this, i as int, j as int, seen@),
                 {
                     proof { this.lemma_wf(); }
                     let ghost e0 = e;
+                    let ghost s_a = seen@;
                     let ei = this.op(i, e).unwrap_or(e);
                     proof { lemma_same_ij_step(this, i as int, j as int, d as int, e0 as int, ei); }
                     seen[ei] = true;
                     e = this.op(j, ei).unwrap_or(ei);
                     proof { lemma_same_ij_step(this, i as int, j as int, d as int, ei as int, e); }
                     seen[e] = true;
+                    proof {
+                        let s_b = seen@;
+                        assert forall|x: int| 0 <= x <= this.ssize() implies (#[trigger] s_a[x] ==> s_b[x]) by {}
+                        // closure under operation i: everything marked before keeps it (marks only grow), e0 got it through ei, ei through e0
+                        assert forall|x: int| 1 <= x <= this.ssize() && #[trigger] s_b[x] && x != e implies ci_at(this, i as int, s_b, x) by {
+                            if x == e0 as int { assert(s_b[ei as int]); }
+                            else if x == ei as int { if this.sop(i as int, e0 as int).is_some() { assert(this.sop(i as int, ei as int) == Some(e0)); } }
+                            else { assert(s_a[x]); assert(ci_at(this, i as int, s_a, x)); }
+                        }
+                        // closure under operation j: ei got it through e, e through ei (where the step was a real one)
+                        assert forall|x: int| 1 <= x <= this.ssize() && #[trigger] s_b[x] && x != d implies ci_at(this, j as int, s_b, x) by {
+                            if x == ei as int { assert(s_b[e as int]); }
+                            else if x == e as int { if this.sop(j as int, ei as int).is_some() { assert(this.sop(j as int, e as int) == Some(ei)); } }
+                            else { assert(s_a[x]); assert(ci_at(this, j as int, s_a, x)); }
+                        }
+                        // the start chamber: closed under i after the first step
+                        assert(ci_at(this, i as int, s_b, d as int)) by {
+                            if started { assert(ci_at(this, i as int, s_a, d as int)); } else { assert(e0 == d); assert(s_b[ei as int]); }
+                        }
+                        started = true;
+                        if e == d {
+                            // back at the start: its j-neighbour is ei (or there is none)
+                            assert(ci_at(this, j as int, s_b, d as int)) by {
+                                if this.sop(j as int, ei as int).is_some() { assert(this.sop(j as int, d as int) == Some(ei)); assert(s_b[ei as int]); }
+                            }
+                        }
+                    }
 
                     if e == d {
                         break;
